@@ -7,6 +7,7 @@ from hypothesis.extra import numpy as hnp
 from skmatter.preprocessing import KernelNormalizer as KN
 from skmatter.preprocessing import SparseKernelCenterer as SKC
 from vf import gen
+from vf.core import vary_layout
 
 ID = "C12"
 TITLE = "Kernel centring and normalisation equal centring and scaling in feature space"
@@ -70,7 +71,8 @@ def check(case, ctx):
     wc, wt = case["with_center"], case["with_trace"]
     n, d = P.shape
     ctx.cls("weights=" + case["wkind"], "with_center=%s" % wc, "with_trace=%s" % wt)
-    K, Kt = P @ P.T, Pt @ P.T
+    # kernels arrive in whatever memory layout the caller's slicing / transposing produced (values identical)
+    K, Kt = vary_layout(P @ P.T, 1), vary_layout(Pt @ P.T, 2)
     ww = np.ones(n) / n if w is None else w / w.sum()
     mu = (ww[:, None] * P).sum(0) if wc else np.zeros(d)
     Pc, Ptc = P - mu, Pt - mu
@@ -100,7 +102,7 @@ def check(case, ctx):
     ctx.close("input-untouched", K, K0, 0.0, "training kernel modified in place")
     ctx.close("input-untouched-test", Kt, Kt0, 0.0, "test kernel modified in place")
     # ---- sparse variant ------------------------------------------------------------------------------------
-    Knm, Kmm, Ktm = P @ Pm.T, Pm @ Pm.T, Pt @ Pm.T
+    Knm, Kmm, Ktm = vary_layout(P @ Pm.T, 3), vary_layout(Pm @ Pm.T, 4), vary_layout(Pt @ Pm.T, 5)
     Knm_c = Pc @ Pm.T if wc else Knm
     mu_cols = (ww[:, None] * Knm).sum(0) if wc else np.zeros(Knm.shape[1])
     Kh = (Knm - mu_cols) @ np.linalg.pinv(Kmm, 1e-12) @ (Knm - mu_cols).T
